@@ -5,8 +5,11 @@ Creation routines (dask/array/creation.py): the per-block arithmetic of `arange`
 
 Fractional `start/stop/step` are rationals; multiplying them by a common denominator `D` turns
 every formula below into the integer one (`ceil((stop-start)/step)` is invariant, values scale by
-`D`), so the theorems over `Int` are the theorems over ℚ.  Floats are *not* modelled: equality with
-NumPy for float inputs is an API-level check (DESIGN.md C34).
+`D`), so the theorems over `Int` are the theorems over ℚ.  Floats: `arange`'s block plan is generic in
+the arithmetic (`Arith`); binary64 itself is modelled exactly in Model/SoftFloat.lean and `da.arange`
+over it in Model/CreationFloat.lean.  `linspace` is modelled over exact rationals only (its float
+branch for an underflowing step — `fix: da.linspace over a denormal range …` — coincides with the main
+formula in exact arithmetic); its float values are compared with NumPy bit for bit by the harness.
 
 Python                                              Lean
 ------                                              ----
